@@ -207,6 +207,16 @@ class Ctx:
             # tail of the stream is not evidence; the death itself is the broken obligation (with the stderr as detail)
             self.broken.append((f"harness {label} exited {hrc}", herr[-2000:] + "\n[driver lines discarded: " + " | ".join(l[:160] for l in (diffs + oracle)[-3:]) + "]"))
             diffs, oracle = [], []
+            # the death of the real code is itself a failing input: name the record on which it died (skipped when the caller runs its
+            # own probe for this stage, and for probes themselves)
+            if not label.endswith("probe") and not getattr(self, "_in_probe", False) and harness_cmd and harness_cmd[0] != "true":
+                self._in_probe = True
+                try:
+                    self.crash_probe(harness_cmd, label + "-crash-probe", start_re=r"^(H|LV|PAIR|CON|T|L|G|GEN|TUP|OPT|VECBEGIN|FILECASE|CASE|case)\b", env=env)
+                except Exception:
+                    pass
+                finally:
+                    self._in_probe = False
         if dp.returncode not in (0, 1) or not summary:
             self.broken.append((f"driver {label} exited {dp.returncode}", out[-2000:]))
         if diffs:
